@@ -103,6 +103,10 @@ func (c19) Gen(rng *rand.Rand, tier string, i int) *sim.Scenario {
 	c.DelayMs = pick(rng, 0, 1)
 	c.Queries = between(rng, 1, 2)
 	c.E2E = pick(rng, 0, 0, 1)
+	if chance(rng, 0.2) {
+		// end-to-end probes only: their parameters must be validated too
+		c.Queries, c.E2E = 0, between(rng, 1, 2)
+	}
 	sc := &sim.Scenario{Property: "C19", Calls: []sim.Call{c}}
 	if host == "127.0.0.2" {
 		lp := c.Port
